@@ -106,12 +106,19 @@ def gen_case(rng, tier, force=None):
                 recs.sort(key=lambda r: custom_key(less, r))
         for j, r in enumerate(recs):
             r['uid'] = i * 100 + j + 1
-        inputs.append(dict(refs=refs, so=so, recs=recs, fail=-1, kind='err', rd=rng.choice([1, 1, 2])))
+        lay = 'natural' if (force.get('span') or rng.random() < 0.25) else 'block'
+        if force.get('span'):
+            for r in recs[:4]:
+                r['pad'] = rng.choice([20000, 30000, 45000])
+            recs = recs[:4] + [r for r in recs[4:]]
+        inputs.append(dict(refs=refs, so=so, recs=recs, fail=-1, kind='err', rd=rng.choice([1, 1, 2, 3, 4]),
+                           go=(rng.choice([0, 0, 1, 2, 3]) if rng.random() < 0.3 else 0), layout=lay, wc=rng.choice([1, 2, 3])))
     # faults
     if force.get('fault', rng.random() < 0.3):
         for _ in range(rng.choice([1, 1, 2])):
             inp = rng.choice(inputs)
-            inp['fail'] = rng.randint(0, len(inp['recs']))
+            # in an ordinary file only the end marker is a block boundary known to the harness
+            inp['fail'] = len(inp['recs']) if inp['layout'] == 'natural' else rng.randint(0, len(inp['recs']))
             inp['kind'] = rng.choice(['err', 'trunc'])
     # sort order disagreement / conflicting reference definitions (NewMerger must refuse)
     x = rng.random()
@@ -150,6 +157,12 @@ def gen_cases(rng, tier):
         cases.append(c)
     for _ in range(n // 16):
         cases.append(gen_case(rng, tier, dict(fault=True)))
+    # ordinary BAM files whose records span BGZF blocks, read with rd > 1
+    for _ in range(10 if tier == 'quick' else 120):
+        c = gen_case(rng, tier, dict(span=True))
+        for inp in c['inputs']:
+            inp['rd'] = rng.choice([2, 3, 4])
+        cases.append(c)
     for _ in range(24 if tier == 'quick' else 200):
         cases.append(gen_less_case(rng))
     return cases
@@ -243,6 +256,9 @@ def oracle(c, o):
         return out
     if o.get('hso') != ins[0]['so']:
         out.append((tag + ':header:so', 'merged header sort order %s' % o.get('hso')))
+    wantgo = ins[0].get('go', 0) if k == 1 else 0
+    if o.get('hgo', 0) != wantgo:
+        out.append((tag + ':header:go', 'merged header group order %s, expected %s' % (o.get('hgo'), wantgo)))
     midx = {nm: i for i, (nm, _) in enumerate(mrefs)}
     src = {}
     for i, inp in enumerate(ins):
@@ -375,7 +391,7 @@ def crec(r):
 
 def cinput(inp):
     refs = clist(inp['refs'], lambda x: '(%s, %s)' % (cstr(x[0]), cz(x[1])))
-    return '(mkInput %s %s %s %s)' % (refs, cz(inp['so']), clist(deliverable(inp), crec), cb(inp['fail'] >= 0))
+    return '(mkInput %s %s %s %s %s)' % (refs, cz(inp['so']), clist(deliverable(inp), crec), cb(inp['fail'] >= 0), cz(inp.get('go', 0)))
 
 
 END_CODE = {'eof': 0, 'fault': 1, 'trunc': 1}
@@ -397,7 +413,7 @@ def cobs(o):
         e = 3
     after = clist(o['after'], lambda a: cz(0 if a == 'eof' else 1 if a in ('fault', 'trunc') else 2 if a.startswith('panic') else 3))
     hrefs = clist(o.get('hrefs') or [], lambda x: '(%s, %s)' % (cstr(x[0]), cz(x[1])))
-    return '(ObsRun %s %s %s %s)' % (hrefs, outs, cz(e), after)
+    return '(ObsRun %s %s %s %s %s %s)' % (hrefs, cz(o.get('hso', 0)), cz(o.get('hgo', 0)), outs, cz(e), after)
 
 
 def coq_term(c, o):
@@ -469,6 +485,8 @@ def run(res, rng, tier):
             res.count('k=%d' % len(ins))
             res.count('layout=%s' % c.get('layout', 'corpus'))
             res.count('faults=%d' % sum(1 for i in ins if i['fail'] >= 0))
+            res.count('bgzf=%s' % ('span' if any(r.get('pad') for i in ins for r in i['recs']) else 'natural' if any(i.get('layout') == 'natural' for i in ins) else 'block'))
+            res.count('rd_max=%d' % max(i.get('rd', 1) for i in ins))
             res.count('empty_inputs=%d' % sum(1 for i in ins if not i['recs']))
             res.count('end=%s' % ('newerr' if o.get('newerr', 'nil') != 'nil' else o.get('end', 'crash/panic').split(':')[0]))
         else:
